@@ -975,7 +975,7 @@ def run(ctx, br):
     BURST_FAIL = {-1001: "op ids of the calls in flight are not pairwise distinct",
                   -1002: "a call's reply would not be delivered to it when made alone (delivered_aloneb)",
                   -1003: "a reply frame travelled that is not the server model's reply to one of the calls in flight (net_okb)",
-                  -1: "burst case malformed"}
+                  -1000: "burst case malformed"}
     burst_tags = collections.Counter()
     for (idl, metas, bmeta), v in zip(burst_meta, bverdicts):
         if v < 0:
